@@ -139,9 +139,10 @@ def run(ctx):
         for c in calls_in(f, "callback"):
             if call_recv(c) == "self._dDown":
                 fires.append(f.qname)
-    want = sorted(["brokerclient:_KafkaBrokerClient._connectionLost", "brokerclient:_KafkaBrokerClient.close",
-                   "brokerclient:_KafkaBrokerClient.close.connectingFailed"])
-    r.check(sorted(fires) == want, "brokerclient:_KafkaBrokerClient#fire-sites(_dDown)", "close Deferred of a broker client is fired from %s" % sorted(fires),
+    bclose = ctx.func("brokerclient:_KafkaBrokerClient.close")
+    ebs = [prog.resolve_callable(bclose, g["eb"]) for g in registrations(bclose, prog) if g["eb"] is not None and g["root"] == "self.connector"]
+    want = sorted(["brokerclient:_KafkaBrokerClient._connectionLost", "brokerclient:_KafkaBrokerClient.close"] + [h.qname for h in ebs if h is not None])
+    r.check(sorted(fires) == want and len(want) == 3, "brokerclient:_KafkaBrokerClient#fire-sites(_dDown)", "close Deferred of a broker client is fired from %s" % sorted(fires),
             facts=sorted(fires), witness="fired before the connection is gone, or twice")
 
     # ---- R3 new operations fail (call-graph dominance)
